@@ -135,6 +135,12 @@ def session_lines(req, ans):
             param = int(pv)
         elif strat == "dss":
             param = int(dv)
+        if not t[2].endswith("-unset") and strat in ("holdout", "dss") and param != int(t[4]) \
+                and not (strat == "holdout" and int(t[4]) > 99):     # the property speaks of 0..99 %
+            problems.append("the %s parameter set by the user (%s) is not the one in force after the search (%d), request "
+                            "`%s`: an explicit value was replaced (src_search::tune_parameters only supplies a default "
+                            "for a parameter left unset), so the training set does not have the share / period asked for"
+                            % (strat, t[4], param, req))
         if param < 0 and strat != "asis":
             problems.append("the search ended with the %s parameter still unset (request `%s`): the strategy ran on "
                             "the `empty` value of the facultative" % (strat, req))
@@ -262,7 +268,9 @@ def run(chk, replay=None):
         steps += [(sreqs[i], s, o) for s, o in st]
         extras += [(sreqs[i], l, w) for l, w in ex]
         for p in prob:
-            chk.violation(p, {"request": sreqs[i]}, tags={"kind": "search", "clause": "unset-parameter",
+            chk.violation(p, {"request": sreqs[i]}, tags={"kind": "search",
+                                                          "clause": "explicit-parameter-replaced" if "set by the user" in p
+                                                          else "unset-parameter",
                                                           "call": " ".join(sreqs[i].split()[1:3])})
         chk.count("session:%s %s" % tuple(sreqs[i].split()[1:3]))
 
